@@ -31,6 +31,9 @@ class PlainIter:
     def __iter__(self):
         return self
 
+    def __len__(self):
+        return 0        # a falsy leaf: "nothing left to hand out"
+
     def __next__(self):
         return "leaf-yield"
 
